@@ -137,7 +137,11 @@ class TemplateDPADistinguisherMixin(_BaseTemplateAttackDistinguisherMixin):
         return data.shape[1]
 
     def get_template_index(self, data, i):
-        return data[:, i]
+        # Templates are stored in the order of the declared partitions: map each hypothesis value to the row of its class.
+        indexes = partitioned._build_lut(_np.asarray(self.partitions))[data[:, i]]
+        if _np.any(indexes < 0):
+            raise base.DistinguisherError('Some intermediate values of the matching phase are not in the partitions used to build the templates.')
+        return indexes
 
     @property
     def _distinguisher_str(self):
